@@ -247,8 +247,9 @@ var props = map[string]*PropSpec{
 	},
 	"C10": {
 		Level:        "exploration",
-		Scens:        []ScenSpec{{ID: "C10", QuickRuns: 4000, QuickSecs: 60, ThoroughRuns: 150000, ThoroughSecs: 900}},
-		CoverageRule: "each run = one seeded history (2-9 arrivals with priorities, clock targets on/around window ends and TTL expiries, stalls at the hand-off point and at every instrumented lock site) against the real StrategyBasedQueuePlugin + DelayedPriorityQueue on a fake clock; a run is non-trivial if more requests arrived than the window quota and at least one grant happened; distinct = distinct (task, yield point, clock target) schedule signatures among non-trivial runs",
+		Scens: []ScenSpec{{ID: "C10", QuickRuns: 4000, QuickSecs: 60, ThoroughRuns: 150000, ThoroughSecs: 900},
+			{ID: "C10L", QuickRuns: 400, QuickSecs: 60, ThoroughRuns: 30000, ThoroughSecs: 300}},
+		CoverageRule: "C10L: the same queue with simulated blocking (the requests and the roll-over goroutine take the queue mutex through the simulator, are parked inside critical sections and wait for locks as parked tasks; a waiting writer shuts out new readers): every request returns once faults stop, no deadlock; C10: each run = one seeded history (2-9 arrivals with priorities, clock targets on/around window ends and TTL expiries, stalls at the hand-off point and at every instrumented lock site) against the real StrategyBasedQueuePlugin + DelayedPriorityQueue on a fake clock; a run is non-trivial if more requests arrived than the window quota and at least one grant happened; distinct = distinct (task, yield point, clock target) schedule signatures among non-trivial runs",
 		Assumptions: []string{
 			"interleavings are explored at mutex acquire/release boundaries, the explicit hand-off yield point and every blocking operation, not at every memory access",
 			"a stall imposed by the simulator is a fault: R1 is judged on what the roll-over did with the window's slots, not on wall time",
